@@ -31,6 +31,7 @@ pub fn decode(tape: &[u16]) -> Case {
     }
     let spec = sched_spec(&mut t);
     let input = input_in(&mut t, &InputOpts::default(), enc);
+    let input = crate::gens::input::maybe_long(&mut t, input, 10);
     let cuts = spec.resolve(input.len());
     Case { input, cuts, cfg }
 }
@@ -111,6 +112,7 @@ pub fn check_case(c: &Case, st: &mut Stats) -> PResult {
     st.label_if(c.cfg.encoding != encoding_rs::UTF_8, "non_utf8");
     st.label_if(expected != c.input, "normalised_text");
     st.label_if(c.cfg.strict, "strict");
+    st.label_if(c.input.len() > 500, "long_construct");
     if markup && (c.cfg.has_handlers() || interesting_cut) {
         let mut key = c.input.clone();
         key.extend(c.cuts.iter().flat_map(|x| (*x as u32).to_le_bytes()));
